@@ -473,8 +473,14 @@ def run_property(spec: PropertySpec, tier: str, seed: int) -> int:
         'broken_obligation': broken_obligation,
     }
     cov.update(outcome.extra)
+    level = 'proof'
+    if not proof_ok:
+        # no proof was established on this run (a violation is reported): say so instead of claiming the proof level
+        level = 'other'
+        cov['explanation'] = ('the proof side did NOT check on this run (' + (broken_obligation or 'see broken_obligation')[:400] + '); the theorem counts above are what '
+                              'was found before the failure, the case counts are those of the failing-input search that followed')
     write_evidence(pid, {
-        'property_id': pid, 'tier': tier, 'seed': seed, 'level': 'proof',
+        'property_id': pid, 'tier': tier, 'seed': seed, 'level': level,
         'coverage': cov,
         'assumptions': spec.assumptions,
         'wall_s': round(wall, 2),
